@@ -397,6 +397,58 @@ fn plan16(seed: u64, run: u64, tier: Tier) -> Plan16 {
         }
         ops.push(op);
     }
+    // round r - two appended scenarios (no draw from the main stream; own rewriter appended after the others):
+    //  * a family of twelve to twenty small files, each with its OWN inline original map, rewritten in a row with
+    //    chaining on and then revisited (a bounded per-thread cache of decoded maps - or of anything else keyed by
+    //    what these files have in common - meets its eviction path; ordinary worlds have at most eight sources);
+    //  * layout twins: texts of exactly the same byte length, with the same literals, whose line breaks sit at
+    //    different places, with the literal report on - revisited on the thread and evaluated on a fresh thread
+    //    (what is derived from one text's layout must not be reused for another text of the same length)
+    let mut side = rng.side(0xC16_52);
+    if run % 6 == 1 {
+        let r = rewriters.len();
+        rewriters.push(RwSpec { cfg: exec::tracer_like_cfg(Some("fam"), true, false, "OFF", false), prng_seed: 7 });
+        let n = side.range(12, 20);
+        let first = sources.len();
+        for i in 0..n {
+            let text = format!("function chunk{}(a, b) {{\n  const v = a + b;\n  return `${{v}}-{}`;\n}}\nmodule.exports = chunk{};\n", i, i, i);
+            let mj = format!("{{\"version\":3,\"file\":\"chunk_{}.js\",\"sources\":[\"chunk_{}.ts\"],\"names\":[],\"mappings\":\"{}\"}}", i, i, ["AAAA;AACA;AACA;AACA;AACA", "AAEA;AACA;AAEA;AACA;AACA", "AAAA;AAGA;AACA;AACA;AAEA"][i % 3]);
+            sources.push(Src { kind: "modified+inline+family".into(), text: format!("{}//# sourceMappingURL=data:application/json;base64,{}\n", text, b64_encode(mj.as_bytes())) });
+        }
+        let f = side.below(files.len());
+        for i in 0..n {
+            ops.push(Op::Call { r, f, s: first + i, chunk: 0, eintr: 0, lat: 0 });
+        }
+        // revisit: the oldest ones first, then one in the middle, then the oldest again
+        for i in [0usize, 1, n / 2, 0, n - 1, 2] {
+            ops.push(Op::Call { r, f, s: first + i, chunk: 0, eintr: 0, lat: 0 });
+        }
+    }
+    if run % 6 == 4 {
+        let r = rewriters.len();
+        rewriters.push(RwSpec { cfg: exec::tracer_like_cfg(Some("twin"), false, false, "OFF", true), prng_seed: 7 });
+        let stmts = ["const first = 'the first literal of the layout twins';", "const sum = a + b;", "const second = 'another literal, reported with its position';", "const third = `tpl ${a} end` + 'third literal of the twins';", "return first + sum + second + third;"];
+        let first = sources.len();
+        let k = stmts.len();
+        for lay in 0..k {
+            // exactly one line break inside the body, after statement `lay`; blanks elsewhere: equal byte lengths
+            let mut t = String::from("function twins(a, b) { ");
+            for (i, st) in stmts.iter().enumerate() {
+                t.push_str(st);
+                t.push(if i == lay { '\n' } else { ' ' });
+            }
+            t.push_str("}\nmodule.exports = twins;\n");
+            sources.push(Src { kind: "modified+layout-twin".into(), text: t });
+        }
+        let f = side.below(files.len());
+        let order: Vec<usize> = (0..k).map(|i| (i + side.below(k)) % k).collect();
+        for &i in order.iter().chain([0usize, 1, 2, 3, 4].iter()) {
+            ops.push(Op::Call { r, f, s: first + i, chunk: 0, eintr: 0, lat: 0 });
+        }
+        for i in [1usize, 3, 0] {
+            ops.push(Op::Hop { r, f, s: first + i });
+        }
+    }
     let oneshot = match tier {
         Tier::Quick => run % 4 == 0,
         Tier::Thorough => true,
